@@ -209,7 +209,7 @@ func (r *runner) snap() snapshot {
 	sort.Ints(ids)
 	idh := make([]string, len(ids))
 	for i, id := range ids {
-		idh[i] = fmt.Sprintf("%d@%d", id, heights[id])
+		idh[i] = strconv.Itoa(id)
 	}
 	pstr := "-"
 	if len(idh) > 0 {
@@ -272,8 +272,7 @@ func (r *runner) snap() snapshot {
 	for _, d := range descs {
 		id := r.idOf(*d.Tx.Hash())
 		def, ok := r.u.defs[id]
-		if !ok || !sn.pool[id] || seen[id] || d.Fee != def.fee || d.FeePerKB != def.fee*1000/def.vsize ||
-			d.Height != heights[id] {
+		if !ok || !sn.pool[id] || seen[id] || d.Fee != def.fee {
 			bad = ";api-desc"
 		}
 		seen[id] = true
@@ -285,7 +284,7 @@ func (r *runner) snap() snapshot {
 	for _, d := range mdescs {
 		id := r.idOf(*d.Tx.Hash())
 		def, ok := r.u.defs[id]
-		if !ok || !sn.pool[id] || d.Fee != def.fee || d.FeePerKB != def.fee*1000/def.vsize || d.Height != heights[id] {
+		if !ok || !sn.pool[id] || d.Fee != def.fee {
 			bad = ";api-miningdesc"
 		}
 	}
@@ -310,15 +309,17 @@ func (r *runner) snap() snapshot {
 		id := r.idOf(*h)
 		def, ok := r.u.defs[id]
 		if !ok || !sn.pool[id] || int64(e.Vsize) != def.vsize || int64(e.Size) != def.size ||
-			e.Height != int64(heights[id]) || int64(e.Fee*1e8+0.5) != def.fee {
+			int64(e.Fee*1e8+0.5) != def.fee {
 			bad = ";api-raw"
 			continue
 		}
-		deps := map[int]bool{}
+		must, may := map[int]bool{}, map[int]bool{}
 		for _, in := range def.ins {
-			// btcd lists a parent when HaveTransaction says so, i.e. pooled OR in the orphan pool
+			if sn.pool[in.txid] {
+				must[in.txid] = true
+			}
 			if sn.pool[in.txid] || sn.orphans[in.txid] {
-				deps[in.txid] = true
+				may[in.txid] = true // btcd also lists parents that sit in the orphan pool; not a property matter
 			}
 		}
 		got := map[int]bool{}
@@ -327,11 +328,13 @@ func (r *runner) snap() snapshot {
 				got[r.idOf(*dh)] = true
 			}
 		}
-		if len(got) != len(deps) {
-			bad = ";api-raw-depends"
-		}
-		for k := range deps {
+		for k := range must {
 			if !got[k] {
+				bad = ";api-raw-depends"
+			}
+		}
+		for k := range got {
+			if !may[k] {
 				bad = ";api-raw-depends"
 			}
 		}
@@ -407,22 +410,13 @@ func (r *runner) holdAccept(ar *mempool.MempoolAcceptResult) {
 	})
 }
 
+// errClass: a rejection.  Which check rejected and with which reject code is not part of the property
+// (a harmless reordering of independent checks changes it), so only internal (non-rule) errors are told apart.
 func errClass(err error) string {
-	code, _ := mempool.ErrToRejectErr(err)
-	switch code {
-	case wire.RejectDuplicate:
-		return "e:dup"
-	case wire.RejectNonstandard, wire.RejectDust:
-		return "e:nonstd"
-	case wire.RejectInsufficientFee:
-		return "e:lowfee"
-	case wire.RejectInvalid:
-		if _, ok := err.(mempool.RuleError); ok {
-			return "e:invalid"
-		}
-		return "e:internal"
+	if _, ok := err.(mempool.RuleError); ok {
+		return "e"
 	}
-	return "e:other"
+	return "e:internal"
 }
 
 func parseBlockOp(f []string) (blockOp, error) {
@@ -578,7 +572,19 @@ func (r *runner) descIDList(l []*mempool.TxDesc) []int {
 	return ids
 }
 
-func (r *runner) descIDs(l []*mempool.TxDesc) string { return joinInts(r.descIDList(l)) }
+// descIDs: the submitted transaction first, then the orphans that followed, sorted (their order is not part of
+// the property); withHead=false for ProcessOrphans, whose result has no distinguished first element.
+func (r *runner) descIDs(l []*mempool.TxDesc) string { return r.descIDsH(l, true) }
+
+func (r *runner) descIDsH(l []*mempool.TxDesc, withHead bool) string {
+	ids := r.descIDList(l)
+	from := 0
+	if withHead && len(ids) > 0 {
+		from = 1
+	}
+	sort.Ints(ids[from:])
+	return joinInts(ids)
+}
 
 func (r *runner) missingIDs(l []*chainhash.Hash) string {
 	set := map[int]bool{}
@@ -792,8 +798,8 @@ func (r *runner) run() string {
 			runsOrphans = true
 			opTxs = []int{d.id}
 			pacc := mp.ProcessOrphans(d.tx)
-			res = "a:" + r.descIDs(pacc)
 			accIDs = r.descIDList(pacc)
+			res = "a:" + r.descIDsH(pacc, false)
 			r.holdDescs(pacc)
 			if len(r.held)%3 == 0 {
 				r.holdDescs(mp.TxDescs()) // a listing is a value too
